@@ -214,6 +214,13 @@ def translate(row, sid, cfg=None):
             out.append(f"oHist {r['b']} {lst(r['bus']['hist'])}")
         elif k == 'cancelRl':
             out.append(f"cancelRl {r['b']}")
+            if r.get('observe'):
+                # cancellation of a parallel activation mid-flight: the orphaned sibling handler tasks are outside the model.
+                # Only the termination of the cancelled run-loop task is observed from here on.
+                nxt = next((q for q in log[idx + 1:] if q['k'] == 'rlTaskDone'), None)
+                if nxt is not None:
+                    out.append(f"oRlTaskDone {nxt['b']} {int(bool(nxt['done']))}")
+                break
         elif k in ('expectTimeout', 'expectCancelReq'):
             out.append(f"{k} {r['x']}")
         elif k == 'expectBegin':
